@@ -29,8 +29,10 @@ def sorted_model(eng, xs, key, st, fr, k, inplace=False):
     if key is None:
         kv = elem
     else:
+        if isinstance(key, SFunc) and key.what == "closure":
+            return sorted_by_closure(eng, xs, key, st, fr, k, inplace)
         if not (isinstance(key, SFunc) and key.what == "lambda"):
-            raise EngineError("sort key must be a lambda (closures with control flow are decided by the bounded layer)")
+            raise EngineError("sort key must be a lambda or a nested function with a contract")
         holder = {}
         saved = st.spec
         st.spec = True
@@ -61,6 +63,63 @@ def sorted_model(eng, xs, key, st, fr, k, inplace=False):
                                                   z3.Implies(key_at(z3.Select(perm, a)) == key_at(z3.Select(perm, b)), z3.Select(perm, a) < z3.Select(perm, b))))))
     already = z3.ForAll([a, b], z3.Implies(z3.And(0 <= a, a < b, b < n), le(key_at(a), key_at(b))))
     st.assume(z3.Implies(already, z3.ForAll([a], z3.Implies(rng(a), z3.Select(perm, a) == a))))
+    st.ghost["last_sort"] = (perm, inv)
+    if inplace:
+        eng.list_set_all(st, xs, n, res)
+        return k(st, SNone())
+    out = eng.new_list_sym(st, ek, n, res)
+    st.ghost.setdefault("sort_perm", {})[out.t.get_id()] = (perm, inv)
+    return k(st, out)
+
+
+def sorted_by_closure(eng, xs, key, st, fr, k, inplace):
+    """sorted(xs, key=f) where f is a nested function with a contract (verified at its definition): the keys are an
+    uninterpreted function of the position that satisfies the closure's postcondition at every element (A-SORT as for
+    lambdas; the closure is called once per element, its contract says it has no effect and cannot raise).  The key of the
+    i-th element of the RESULT is exported as the ghost array `sort_key`."""
+    from .symex import EngineError
+    node = key.payload[0]
+    cc = getattr(getattr(fr, "contract", None), "closures", {}).get(node.name)
+    if cc is None:
+        raise EngineError(f"the sort key {node.name} is a nested function without a contract")
+    # the closure's contract was verified in the state at its definition: it is used only if nothing was written since
+    dh = getattr(key, "def_heap", None)
+    if dh is None or any(kx[0] != "g" and not (kx in dh and dh[kx].eq(t)) for kx, t in st.heap.comps.items()):
+        raise EngineError(f"the heap changed between the definition of {node.name} and its use as a sort key")
+    eng.trusted_used.add("A-SORT")
+    ek = xs.kind[5:]
+    fam = eng.list_fam(xs)
+    n = eng.list_len(st, xs)
+    el = eng.list_elems(st, xs)
+    rk = cc["sorts"].get("result", "int")
+    if rk != "int":
+        raise EngineError("closure sort keys must be int")
+    params = [p for p in cc["sorts"] if p != "result"]
+    keyf = z3.Function("sortkey_" + node.name + "_" + str(fresh("u", IntS)).replace("!", "_"), IntS, IntS)
+    j = fresh("sj", IntS)
+    s1 = st.copy()
+    s1.spec = True
+    s1.frames = s1.frames + [{params[0]: from_sort(ek, z3.Select(el, j)), "result": SInt(keyf(j)), "__parent__": len(s1.frames) - 1}]
+    facts = [eng.spec_bool(text, s1, fr, "assume") for text in cc.get("ensures", {}).values()]
+    st.assume(z3.ForAll([j], z3.Implies(z3.And(0 <= j, j < n), z3.And(facts))))
+    key_at = lambda t: keyf(t)
+    perm = fresh("perm", z3.ArraySort(IntS, IntS))
+    inv = fresh("pinv", z3.ArraySort(IntS, IntS))
+    res = fresh("sorted", z3.ArraySort(IntS, FAM_SORT[fam]))
+    a, b = z3.Int("a!srt"), z3.Int("b!srt")
+    rng = lambda t: z3.And(0 <= t, t < n)
+    st.assume(z3.ForAll([a], z3.Implies(rng(a), z3.And(rng(z3.Select(perm, a)), rng(z3.Select(inv, a)),
+                                                        z3.Select(perm, z3.Select(inv, a)) == a, z3.Select(inv, z3.Select(perm, a)) == a))))
+    st.assume(z3.ForAll([a], z3.Implies(rng(a), z3.Select(res, a) == z3.Select(el, z3.Select(perm, a)))))
+    st.assume(z3.ForAll([a], z3.Implies(rng(a), z3.Select(res, z3.Select(inv, a)) == z3.Select(el, a))))
+    st.assume(z3.ForAll([a, b], z3.Implies(z3.And(0 <= a, a < b, b < n),
+                                           z3.And(key_at(z3.Select(perm, a)) <= key_at(z3.Select(perm, b)),
+                                                  z3.Implies(key_at(z3.Select(perm, a)) == key_at(z3.Select(perm, b)), z3.Select(perm, a) < z3.Select(perm, b))))))
+    already = z3.ForAll([a, b], z3.Implies(z3.And(0 <= a, a < b, b < n), key_at(a) <= key_at(b)))
+    st.assume(z3.Implies(already, z3.ForAll([a], z3.Implies(rng(a), z3.Select(perm, a) == a))))
+    # ghost: the key of the i-th element of the result, and the source position it came from
+    st.heap.set(("g", "sort_key", "arr"), z3.Lambda([a], keyf(z3.Select(perm, a))))
+    st.heap.set(("g", "sort_src", "arr"), perm)
     st.ghost["last_sort"] = (perm, inv)
     if inplace:
         eng.list_set_all(st, xs, n, res)
